@@ -129,7 +129,8 @@ Theorem outermost_meshes_flagged : forall g fl k m,
   f_cb (nth m (set_outermost g fl k) flags0) = f_cb (nth m fl flags0) /\
   f_iso (nth m (set_outermost g fl k) flags0) = f_iso (nth m fl flags0) /\
   f_out (nth m (set_outermost g fl k) flags0) =
-    (f_out (nth m fl flags0) || (memn m (flat_map (fun b => map snd (b_om b)) (dom g k)) && Nat.ltb m (length fl))).
+    (f_out (nth m fl flags0) || (memn m (flat_map (fun b => map snd (b_om b)) (dom g k)) && Nat.ltb m (length fl)
+                                  && negb (f_iso (nth m fl flags0)))).
 Proof. intros g fl k m. rewrite set_outermost_raise. apply raise_out_spec. Qed.
 Print Assumptions outermost_meshes_flagged.
 
@@ -252,11 +253,15 @@ From OM Require Import Geom.IndexBridge Geom.IndexBridgeC10 Geom.IndexBridgeC05.
 
 Theorem finalize_gives_wf_indexed : forall g hasc zero snz fi sig sinv ind,
   finalize g hasc zero snz false = (StOk, Some fi) -> meshes_well_formed g ->
-  (forall k, (k < length (g_meshes g))%nat ->
-     f_out (nth k (mk_flags (fi_marks fi)) flags0) = true -> f_iso (nth k (mk_flags (fi_marks fi)) flags0) = false) ->
   AssemblyProofs.wf_indexed (to_igeom g fi sig sinv ind) (VV g fi).
 Proof. intros. eapply finalize_wf_indexed; eauto. Qed.
 Print Assumptions finalize_gives_wf_indexed.
+
+(* isolated meshes are never flagged outermost (needed by the deflation; true since the repair of set_to_outermost) *)
+Theorem isolated_mesh_never_outermost : forall g hasc zero snz old fi, finalize g hasc zero snz old = (StOk, Some fi) ->
+  forall m, f_iso (nth m (mk_flags (fi_marks fi)) flags0) = true -> f_out (nth m (mk_flags (fi_marks fi)) flags0) = false.
+Proof. exact finalize_quiet. Qed.
+Print Assumptions isolated_mesh_never_outermost.
 
 Theorem finalize_gives_well_indexed : forall g hasc zero snz fi,
   finalize g hasc zero snz false = (StOk, Some fi) -> meshes_well_formed g ->
@@ -264,14 +269,3 @@ Theorem finalize_gives_well_indexed : forall g hasc zero snz fi,
 Proof. intros. eapply finalize_well_indexed; eauto. Qed.
 Print Assumptions finalize_gives_well_indexed.
 
-(* the extra hypothesis of finalize_gives_wf_indexed is not vacuous: two non-conductive outer layers leave an isolated
-   mesh flagged outermost (nested shells 0,1,2; domains D0 = in 0; D1 = in 1 out 0; D2 = in 2 out 1; Air = out 2;
-   D1, D2, Air non-conductive) *)
-Example isolated_mesh_flagged_outermost :
-  let om := fun m : nat => [(-1, m)] in
-  let g := mkGeom 0 [mkLMesh [] []; mkLMesh [] []; mkLMesh [] []]
-     [ [mkGB true 0 (om 0%nat)]; [mkGB true 1 (om 1%nat); mkGB false 0 (om 0%nat)];
-       [mkGB true 2 (om 2%nat); mkGB false 1 (om 1%nat)]; [mkGB false 2 (om 2%nat)] ] in
-  exists fi, finalize g true [false; true; true; true] (fun _ _ => true) false = (StOk, Some fi)
-    /\ f_out (nth 2 (mk_flags (fi_marks fi)) flags0) = true /\ f_iso (nth 2 (mk_flags (fi_marks fi)) flags0) = true.
-Proof. cbv zeta. eexists. split; [vm_compute; reflexivity|]. split; reflexivity. Qed.
